@@ -25,13 +25,13 @@ from slimta.relay import Relay
 ID = 'C04'
 LEVEL = 'fault_enumeration'
 RULE = ('Hypothesis histories of storage operations as the Queue issues them (write, increment_attempts, set_timestamp, '
-        'set_recipients_delivered, remove) over 1..4 messages with bodies of 1..4 chunks (chunk size 64), tmp_dir separate from or '
+        'set_recipients_delivered, remove; optionally a complete load() before the k-th rename / temp-file creation / unlink / chunk write of the next operation) over 1..4 messages with bodies of 1..4 chunks (chunk size 64), tmp_dir separate from or '
         'equal to env_dir; for every history EVERY crash point is taken: a snapshot before each file-system effect (temp-file '
         'creation, each chunk write, rename, unlink) and after the last. Each snapshot is recovered by a fresh DiskStorage and a '
         'fresh Queue. One case = one (history, crash point). non-trivial = crash inside an operation on one message while another '
         'acknowledged message is live; distinct = distinct (history, crash index)')
 ASSUMPTIONS = ['POSIX rename/unlink atomicity; process death, not power loss (no fsync model)',
-               'operations on one storage are sequential at the crash (overlap is judged by C15)',
+               'operations on one storage are sequential at the crash, except that the start-up scan (load) of a restarted queue may run, to completion, at any file-system effect of another operation (other overlaps are judged by C15)',
                'delivered marks are passed as lists of indexes into the recipient list get() currently returns (several rounds per message)']
 
 
@@ -42,8 +42,11 @@ class Recorder(object):
         self.snaps = []        # (snapshot path, op index, effect name)
         self.op_index = -1
         self.root = None
+        self.hook = None       # optional callable(effect): lets another check run something at every file-system effect
 
     def snap(self, effect):
+        if self.hook is not None:
+            self.hook(effect)
         if not self.active:
             return
         dst = tempfile.mkdtemp(prefix='snap_', dir=self.root)
@@ -135,9 +138,35 @@ def run_history(ops, same_tmp):
         history = []        # per op: (tag, before_state, after_state)   state = dict(ts, attempts, delivered) | None
         order = []
         REC.active = True
+        scan_at = [None]
+
+        def arm_scan():
+            # the start-up scan of a (re)started queue overlaps the operation: a complete load() runs at its k-th effect
+            if scan_at[0] is None:
+                return
+            (name_, k_), n_ = scan_at[0], [0]
+            scan_at[0] = None
+
+            def hook(effect):
+                if name_ not in ('any', effect):
+                    return
+                n_[0] += 1
+                if n_[0] == k_ + 1:
+                    REC.hook = None
+                    try:
+                        list(store.load())
+                    except Exception as e:
+                        out.append(('C04:overlapped-scan-raises:%s' % type(e).__name__, 'load() overlapping op#%d %r raised %r' % (i, op, e)))
+            REC.hook = hook
         for i, op in enumerate(ops):
             REC.op_index = i
+            REC.hook = None
             kind = op[0]
+            if kind == 'scan':
+                scan_at[0] = (op[1], int(op[2]))       # before the k-th effect of that kind ('any': k-th effect) of the next operation
+                history.append(None)
+                continue
+            arm_scan()
             if kind == 'write':
                 k = len(order)
                 if k >= 4:
@@ -185,9 +214,12 @@ def run_history(ops, same_tmp):
                 store.remove(m['id'])
                 m['state'] = None
             history.append((m['tag'], before, None if m['state'] is None else dict(m['state'])))
+        REC.hook = None
         REC.op_index = len(ops)
         REC.snap('end')
         REC.active = False
+        if out:
+            return out, len(REC.snaps), 0
         # judge every crash point
         ncrash = 0
         nnt = 0
@@ -218,6 +250,7 @@ def run_history(ops, same_tmp):
         return out, ncrash, nnt
     finally:
         REC.active = False
+        REC.hook = None
         shutil.rmtree(root, ignore_errors=True)
 
 
@@ -300,6 +333,7 @@ _op = st.one_of(
     st.tuples(st.just('ts'), st.integers(0, 3), st.sampled_from([7.25, 2000.0, 1.0])).map(list),
     st.tuples(st.just('deliver'), st.integers(0, 3), st.lists(st.integers(0, 3), min_size=1, max_size=2)).map(list),
     st.tuples(st.just('remove'), st.integers(0, 3)).map(list),
+    st.tuples(st.just('scan'), st.sampled_from(['rename', 'rename', 'mkstemp', 'unlink', 'chunk-write', 'any']), st.integers(0, 2)).map(list),
 )
 _case = st.tuples(st.tuples(_w, st.lists(_op, max_size=11)).map(lambda t: [t[0]] + t[1]), st.booleans())
 
@@ -324,6 +358,9 @@ def replay(case):
                 ops.append(['write', max(1, min(4, int(o[1]))), max(1, min(4, int(o[2]))), bool(o[3]), float(o[4])])
             elif o[0] in ('incr', 'remove'):
                 ops.append([o[0], int(o[1])])
+            elif o[0] == 'scan':
+                if o[1] in ('rename', 'mkstemp', 'unlink', 'chunk-write', 'any'):
+                    ops.append(['scan', o[1], max(0, int(o[2]))])
             elif o[0] == 'ts':
                 ops.append(['ts', int(o[1]), float(o[2])])
             elif o[0] == 'deliver':
